@@ -376,6 +376,8 @@ def run_history(hist, scale=1):
             snap = snapshot(w.mgr.sessions)
         except Obs as e:
             return steps, str(e)
+        except Exception as e:                  # noqa: BLE001 - the library raised where the simple map would just answer
+            return steps, f"raised:{op[0]} raised {type(e).__name__}: {str(e)[:160]}"
         post = "0" if snap == prev else enc_store(snap)
         prev = snap
         steps.append(f"({fresh_id} {now} {enc_op(op)} {res} {post})")
